@@ -43,6 +43,18 @@ for line in open(path):
 if len(fmt_sel) > n:
     step = len(fmt_sel) / float(n)
     fmt_sel = [fmt_sel[int(i * step)] for i in range(n)]
+lex_sel = []
+for line in open(path):
+    f = line.rstrip('\n').split('\t')
+    if f[0] == 'LEX' and len(f) == 3:
+        src = binascii.unhexlify(f[1])
+        if src and all(0 < c < 128 for c in src) and len(src) <= 400:
+            lex_sel.append(f)
+if len(lex_sel) > n:
+    step = len(lex_sel) / float(n)
+    lex_sel = [lex_sel[int(i * step)] for i in range(n)]
+TYNAME = {'=': 'ASSIGN', '==': 'EQ', '!=': 'NEQ', '<': 'LT', '>': 'GT', '<=': 'LTE', '>=': 'GTE', '&&': 'AND', '||': 'OR', '!': 'NOT', '*': 'MUL', ',': 'COMMA',
+          ':': 'COLON', '(': 'LPAREN', ')': 'RPAREN', '{': 'LBRACE', '}': 'RBRACE', '[': 'LBRACKET', ']': 'RBRACKET'}
 sel, seen = [], set()
 for line in open(path):
     f = line.rstrip('\n').split('\t')
@@ -60,7 +72,7 @@ for line in open(path):
 if len(sel) > n:
     step = len(sel) / float(n)
     sel = [sel[int(i * step)] for i in range(n)]
-if not sel and not fmt_sel:
+if not sel and not fmt_sel and not lex_sel:
     print('VMCHECK cases=0 agree=0 (no eligible case)')
     sys.exit(0)
 d = os.path.join(ROOT, 'build', 'vmcheck')
@@ -113,6 +125,22 @@ with open(vf, 'w') as o:
         else:
             items.append('match %s with Some x => teq x (%s) | None => false end' % (call, cps(binascii.unhexlify(f[7][3:]))))
         sel.append(['FMT', '', '', '', '', '', '', '', '', '', f[6], f[7][:2], f[7]])
+    # LEX cases: lexer.New(src) token dump against Lexer.lex inside Coq (ASCII sources: the classification tables are not needed)
+    if lex_sel:
+        o.write('Definition tk_eqb (a b : token) : bool := tt_eqb (ttype a) (ttype b) && teq (tlit a) (tlit b) && Z.eqb (tline a) (tline b) && Z.eqb (tsb a) (tsb b) && Z.eqb (tsu a) (tsu b) && Z.eqb (teline a) (teline b) && Z.eqb (teb a) (teb b) && Z.eqb (teu a) (teu b).\n')
+        o.write('Fixpoint collapse (l : list token) : list token := match l with a :: ((_ :: _) as r) => match collapse r with [b] => if tk_eqb a b then [a] else [a; b] | r1 => a :: r1 end | _ => l end.\n')
+        o.write('Fixpoint tks_eqb (a b : list token) : bool := match a, b with [], [] => true | x :: a1, y :: b1 => tk_eqb x y && tks_eqb a1 b1 | _, _ => false end.\n')
+        o.write('Definition mk (ty : toktype) (l : text) (a b c d e f : Z) : token := {| ttype := ty; tlit := l; tline := a; tsb := b; tsu := c; teline := d; teb := e; teu := f |}.\n')
+    for f in lex_sel:
+        exp = []
+        for tk in f[2].split(';'):
+            q = tk.split('|')
+            # the separator | is also the literal of no token but the type name of OR is '||'
+            if len(q) == 10 and q[0] == '' and q[1] == '' and q[2] == '':
+                q = ['||'] + q[3:]
+            exp.append('mk %s %s %s' % (TYNAME.get(q[0], q[0]), lit(binascii.unhexlify(q[1])), ' '.join('(%s)%%Z' % x for x in q[2:8])))
+        items.append('tks_eqb (collapse (lex nf nf nf %s)) [%s]' % (lit(binascii.unhexlify(f[1])), '; '.join(exp)))
+        sel.append(['LEX', '', '', '', '', '', '', '', '', '', f[1], 'LEX', f[2]])
     o.write('Definition results : list bool := Eval vm_compute in [\n  ' + ';\n  '.join(items) + '].\nPrint results.\n')
 r = subprocess.run(['coqc', '-Q', os.path.join(ROOT, 'coq'), 'Pory', vf], cwd=d, capture_output=True, text=True, timeout=3000)
 m = re.search(r'results\s*=\s*\[(.*?)\]', r.stdout, re.S)
